@@ -1709,6 +1709,12 @@ func (p *Parser) parseIn(leftNode ast.Node) ast.Node {
 	if err := p.nextToken(); err != nil {
 		return nil
 	}
+	// As after any binary operator, the line may be broken here
+	for p.curTokenIs(token.NEWLINE) {
+		if err := p.nextToken(); err != nil {
+			return nil
+		}
+	}
 	right := p.parseExpression(PREFIX)
 	if right == nil {
 		p.setTokenError(p.curToken, "invalid in expression")
@@ -1740,6 +1746,12 @@ func (p *Parser) parseNotIn(leftNode ast.Node) ast.Node {
 	// Move past the IN token to parse the right operand
 	if err := p.nextToken(); err != nil {
 		return nil
+	}
+	// As after any binary operator, the line may be broken here
+	for p.curTokenIs(token.NEWLINE) {
+		if err := p.nextToken(); err != nil {
+			return nil
+		}
 	}
 
 	right := p.parseExpression(PREFIX)
